@@ -308,7 +308,8 @@ pub fn record_c16(rng: &mut Rng, count: u64, out: &mut Out) {
           }
         }
         let reg = if lat.abs() + r >= 0.7297276562269663 { "npc" } else { "eqr" };
-        out.emit(json!({"ev": "c2v_radius", "d": depth, "from": from, "reg": reg, "p": (b1.is_none() || arr.is_none()) as u8, "ncand": ncand, "deficit": worst1, "deficit_arr": worst_arr,
+        let ccap = (lat.abs() >= 0.7297276562269663) as u8;
+        out.emit(json!({"ev": "c2v_radius", "d": depth, "from": from, "reg": reg, "ccap": ccap, "r3": (r * 1000.0) as i64, "p": (b1.is_none() || arr.is_none()) as u8, "ncand": ncand, "deficit": worst1, "deficit_arr": worst_arr,
                         "len_ok": arr.as_ref().map_or(0, |a| (a.len() == (depth + 1 - from) as usize) as u8), "cls": class, "in": format!("{} r={:e}", pos_str(lon, lat), r)}));
       }
       _ => {
@@ -468,6 +469,21 @@ pub fn record_c12(rng: &mut Rng, count: u64, out: &mut Out) {
       offset_point(lon, lat, rho, az)
     }).collect();
     if cw { vs.reverse(); }
+    // elongated kites / needles: a few vertices close together and one distant apex, listed at a random position
+    // (in particular last), so that the vertices are very unevenly spread around their mean direction
+    let kite = rng.below(6) == 0;
+    if kite {
+      let az = rng.range(0.0, TWO_PI);
+      let nb = 2 + rng.below(3) as usize;
+      let spread = rng.range(0.15, 0.6);
+      vs = (0..nb).map(|k| offset_point(lon, lat, radius * rng.range(0.05, 0.12), az + PI + spread * (k as f64 - (nb as f64 - 1.0) / 2.0))).collect();
+      if rng.bool() { vs.reverse(); }
+      let apex = offset_point(lon, lat, radius, az);
+      let pos = if rng.bool() { vs.len() } else { rng.below(vs.len() as u64 + 1) as usize };
+      vs.insert(pos, apex);
+    }
+    let convex = convex && !kite;
+    let class = if kite { "kite" } else { class };
     let depth = gen_depth(rng, radius).min(29);
     let exact = rng.bool();
     if let Some(ev) = polygon_event(rng, depth, exact, (lon, lat), radius, &vs, convex, class) { out.emit(ev); }
